@@ -16,6 +16,8 @@ UNITS = [
     U("set_replace_get", "h_set_replace_get", "tls.c", P, canaries=2, functions=["p_uthread_get_local", "p_uthread_set_local", "p_uthread_replace_local"]),
     U("local_new_free", "h_local_new_free", "tls.c", P, canaries=2, functions=["p_uthread_local_new", "p_uthread_local_free"]),
     U("init_shutdown", "h_init_shutdown", "thread.c", T, canaries=3, functions=["p_uthread_init", "p_uthread_shutdown"]),
+    U("set_name_internal", "h_set_name", "tls.c", P, defines=["UNIT_SET_NAME"], canaries=3, functions=["p_uthread_set_name_internal"], cbmc_flags=["--unwind", "42", "--unwinding-assertions", "--object-bits", "10"],
+      bound="thread names of 1..23 characters (the platform limit is 15): string loops fully unwound, unwinding assertions on"),
     U("create_internal", "h_create_internal", "tls.c", P, defines=["UNIT_CREATE_INTERNAL"], canaries=3, functions=["p_uthread_create_internal", "p_uthread_free_internal", "pp_uthread_get_unix_priority"]),
 ]
 REQUIRE_CONFIGURED = ["puthread.c", "puthread-posix.c"]
